@@ -82,6 +82,10 @@ func (c *c06Case) input() string {
 			fmt.Fprintf(&sb, " P %d", op.ch)
 		case "M":
 			fmt.Fprintf(&sb, " M %d", op.n)
+		case "X":
+			sb.WriteString(" X")
+		case "R":
+			sb.WriteString(" R")
 		}
 	}
 	return sb.String()
@@ -296,25 +300,46 @@ func (c *c06Case) run() string {
 		}
 	}
 	viper.Set("trigger", fts)
+	// The source runs under the real Start / CoreLoop; requests reach it through the SourceControl's
+	// queue exactly as in the server.  Everything that touches the processors runs inside the loop.
 	vs := dastard.NewVerifSource(c.nch, 10000)
-	if err := vs.VerifPrepare(c.npre, c.nsamp); err != nil {
-		return "PANIC prepare-error"
+	sc := dastard.VerifNewSourceControl(vs, c.npre, c.nsamp)
+	queue := sc.VerifQueue()
+	if err := vs.VerifC06Start(queue, c.npre, c.nsamp); err != nil {
+		return "PANIC start-error"
 	}
-	for ch, p := range c.proj {
-		if p {
-			if err := vs.VerifC06LoadProjectors(ch, c06NBases); err != nil {
-				return "PANIC projectors-error"
+	running := true
+	inLoop := func(f func()) {
+		if !running {
+			f()
+			return
+		}
+		done := make(chan struct{})
+		queue <- func() { f(); close(done) }
+		<-done
+	}
+	defer func() { // end the loop (the scripted producer does not react to Stop)
+		if running {
+			vs.VerifC06EndByItself()
+		}
+	}()
+	perr := false
+	inLoop(func() {
+		for ch, p := range c.proj {
+			if p && vs.VerifC06LoadProjectors(ch, c06NBases) != nil {
+				perr = true
 			}
 		}
+		vs.VerifC06SetChanNumbers(c.nums)
+	})
+	if perr {
+		return "PANIC projectors-error"
 	}
-	vs.VerifC06SetChanNumbers(c.nums)
-	sc := dastard.VerifNewSourceControl(vs, c.npre, c.nsamp)
 	var sb strings.Builder
 	fmt.Fprintf(&sb, "%d", len(c.ops))
 	prev := map[c06Key]int{}
 	frame := int64(100000)
 	t0 := int64(1700000000) * 1e9
-	signed := make([]bool, c.nch)
 	for _, op := range c.ops {
 		switch op.kind {
 		case "Q":
@@ -324,7 +349,7 @@ func (c *c06Case) run() string {
 			}
 			var reply bool
 			mapLen := sc.VerifC06MapLen() // the map this request will be handed by the RPC layer
-			err := callRPC(sc, func() error { return sc.WriteControl(&cfg, &reply) })
+			err := sc.WriteControl(&cfg, &reply)
 			fmt.Fprintf(&sb, " E %d %d", b2i(err != nil), mapLen)
 		case "M":
 			sc.VerifC06SetMap(op.n)
@@ -338,33 +363,56 @@ func (c *c06Case) run() string {
 				}
 				data[ch] = d
 			}
-			recs, err := vs.VerifProcessBlock(frame, t0, 100000, data, signed, nil, 0)
-			if err != nil {
-				return "PANIC process-error"
+			cnt := make([]int, c.nch)
+			if running { // a producer only delivers blocks while the source runs
+				cnt = vs.VerifC06PushBlock(queue, frame, t0, 100000, data)
 			}
 			frame += int64(op.nsamples)
 			t0 += int64(op.nsamples) * 100000
-			cnt := make([]int, c.nch)
-			for ch := range cnt {
-				cnt[ch] = len(recs[ch])
-			}
 			fmt.Fprintf(&sb, " R %s", ints(cnt))
 		case "D":
-			if err := vs.VerifC06PublishDirect(op.ch, op.n, frame, t0); err != nil {
+			var err error
+			if running {
+				inLoop(func() { err = vs.VerifC06PublishDirect(op.ch, op.n, frame, t0) })
+			}
+			if err != nil {
 				return "PANIC publish-error"
 			}
 			sb.WriteString(" -")
 		case "P":
-			err := vs.VerifC06LoadProjectors(op.ch, c06NBases)
+			var err error
+			inLoop(func() { err = vs.VerifC06LoadProjectors(op.ch, c06NBases) })
+			fmt.Fprintf(&sb, " E %d", b2i(err != nil))
+		case "X": // the device fails: the producer reports an error, the CoreLoop ends on its own
+			if running {
+				vs.VerifC06EndByItself()
+				var dummy string
+				var ok bool
+				sc.WaitForStopTestingOnly(&dummy, &ok) // the server notices that the source is gone
+				running = false
+			}
+			sb.WriteString(" -")
+		case "R": // the source is started (again) through the real Start
+			err := vs.VerifC06Start(queue, c.npre, c.nsamp)
+			if err == nil {
+				running = true
+				sc.VerifSetActive(true)
+				inLoop(func() { vs.VerifC06SetChanNumbers(c.nums) })
+			}
 			fmt.Fprintf(&sb, " E %d", b2i(err != nil))
 		}
 		// observation
-		ws := vs.ComputeWritingState()
+		var ws *dastard.WritingState
+		var nw []int
+		inLoop(func() {
+			ws = vs.ComputeWritingState()
+			nw = vs.VerifNumberWritten()
+			vs.VerifC06FlushWriters()
+		})
 		pp, pr := c06Pattern(root, ws.FilenamePattern)
 		fmt.Fprintf(&sb, " S %d %d %d %d %d %d %d %d", b2i(ws.Active), b2i(ws.Paused), b2i(ws.WriteLJH22), b2i(ws.WriteOFF),
 			b2i(ws.WriteLJH3), c06BasePid(root, ws.BasePath), pp, pr)
-		fmt.Fprintf(&sb, " NW %s", ints(vs.VerifNumberWritten()))
-		vs.VerifC06FlushWriters()
+		fmt.Fprintf(&sb, " NW %s", ints(nw))
 		fmt.Fprintf(&sb, " FD %d", c06OpenFds(root))
 		cur := c06Scan(root, c.nsamp)
 		var changed []c06Key
@@ -400,7 +448,7 @@ func (c *c06Case) run() string {
 	// leave nothing open behind (the child process runs many cases)
 	var reply bool
 	stop := dastard.WriteControlConfig{Request: "STOP"}
-	callRPC(sc, func() error { return sc.WriteControl(&stop, &reply) })
+	sc.WriteControl(&stop, &reply)
 	return sb.String()
 }
 
@@ -451,6 +499,12 @@ func c06Scripted(idx int) *c06Case {
 		c.ops = []c06Op{{kind: "M", n: 4}, q("START", 0, true, true, true), {kind: "D", ch: 0, n: 2}, {kind: "B", nsamples: 24},
 			q("START", 0, true, false, false), {kind: "D", ch: 1, n: 1}, q("STOP", -1, false, false, false),
 			{kind: "M", n: 4}, q("START", 0, false, false, true), {kind: "D", ch: 2, n: 3}, q("STOP", -1, false, false, false)}
+	case 4: // the source ends by itself while writing is PAUSED, is started again, and writing resumes
+		c = &c06Case{idx: idx, nch: 2, npre: 3, nsamp: 8, proj: []bool{false, false}, trig: []bool{true, true}, nums: []int{1, 2}}
+		c.ops = []c06Op{q("START", 0, true, false, true), {kind: "D", ch: 0, n: 1}, q("PAUSE", -1, false, false, false),
+			{kind: "X"}, q("UNPAUSE", -1, false, false, false), {kind: "R"}, q("UNPAUSE", -1, false, false, false), {kind: "D", ch: 1, n: 2},
+			{kind: "B", nsamples: 24}, q("START", -1, true, false, false), {kind: "D", ch: 0, n: 3}, {kind: "X"}, {kind: "R"}, {kind: "R"},
+			q("START", -1, false, false, true), {kind: "B", nsamples: 16}, q("STOP", -1, false, false, false)}
 	case 3: // a good map: accepted
 		c = &c06Case{idx: idx, nch: 3, npre: 3, nsamp: 8, proj: []bool{false, true, false}, trig: []bool{true, true, true},
 			nums: []int{3, 1, 2}}
@@ -468,7 +522,7 @@ func c06Scripted(idx int) *c06Case {
 }
 
 func genC06(r *Rng, tier string, idx int) *c06Case {
-	if idx < 4 {
+	if idx < 5 {
 		return c06Scripted(idx)
 	}
 	c := &c06Case{idx: idx}
@@ -551,7 +605,15 @@ func genC06(r *Rng, tier string, idx int) *c06Case {
 	addReq := func(word string, pid int, l22, off, l3 bool) {
 		c.ops = append(c.ops, c06Op{kind: "Q", req: word, pid: pid, l22: l22, off: off, l3: l3})
 	}
+	srcRunning := true
+	lifePct := 0 // how often the source ends by itself before a request
+	if r.Chance(25) {
+		lifePct = r.Pick(4, 8, 15)
+	}
 	publish := func() {
+		if !srcRunning { // no producer, no blocks
+			return
+		}
 		k := r.Pick(0, 1, 1, 1, 2, 3)
 		for i := 0; i < k; i++ {
 			if r.Chance(60) {
@@ -583,6 +645,15 @@ func genC06(r *Rng, tier string, idx int) *c06Case {
 	for q := 0; q < nreq; q++ {
 		if r.Chance(6) {
 			c.ops = append(c.ops, c06Op{kind: "P", ch: r.Intn(c.nch)})
+		}
+		if srcRunning && r.Chance(lifePct) { // the device fails: the source ends on its own
+			c.ops = append(c.ops, c06Op{kind: "X"})
+			srcRunning, active, paused = false, false, false
+		} else if !srcRunning && r.Chance(70) {
+			c.ops = append(c.ops, c06Op{kind: "R"})
+			srcRunning = true
+		} else if lifePct > 0 && r.Chance(3) { // redundant: start a running source / end an ended one
+			c.ops = append(c.ops, c06Op{kind: []string{"R", "X"}[b2i(!srcRunning)]})
 		}
 		if r.Chance(mapPct) { // load a map (right length, off by one, empty) or unload it
 			c.ops = append(c.ops, c06Op{kind: "M", n: r.Pick(c.nch, c.nch, c.nch, c.nch, c.nch+1, c.nch-1, 0, -1)})
